@@ -131,6 +131,35 @@ claim(
     "DESIGN.md §5 C17",
 )
 
+claim(
+    "C01",
+    "decided through its mechanisms: bounded symbolic strings (QF_BV, z3) for every identifier kernel; z3 on guard formulas extracted from model.py.jinja (declaration/emission partitions); CrossHair (z3) on the removal cascade and on scope-level name resolution",
+    "Names: every derived identifier is a valid non-keyword identifier for all strings within K (modulo recorded classes); templates: each attribute is declared exactly once, attributes without default first, each key written exactly once (valid for all 4 valuations of the extracted guard variables); imports: after any failing subset of any 3-node dependency graph no surviving class depends on a removed one; resolved names within a scope are distinct identifiers. Whole packages of the skeleton family are compiled and imported for every metadata flavour as a replay gate.",
+    "The package-level compile/import/tomllib run is a concrete replay gate over the skeleton family x configurations, not a solver verdict; literal/default validity is decided under C05/C13; shapes outside the family are outside the claim.",
+    "DESIGN.md §5 C01",
+)
+claim(
+    "C16",
+    "CrossHair symbolic execution (z3): differential by common oracle — clients regenerated under each behaviour-preserving option satisfy the same document-derived round-trip/request/response oracles for all symbolic inputs; real parser functions for tag placement, content-type overrides, class overrides, default post-hooks",
+    "field_prefix, use_path_prefixes_for_title_model_names=false, docstrings_on_attributes, literal_enums and class_overrides leave wire behaviour identical (same oracle as without the option, all inputs within bounds); generate_all_tags places the same endpoint object under every tag; an overridden media type is classified as its target and still sent as itself; class_overrides only rename.",
+    "'metadata flavour, file encoding, custom template directory and post-hook list affect only the files they are documented to affect' is NOT solver-decided: file-tree relation, exercised only by the replay oracle (meta flavours add only metadata files, version/name overrides, generate_all_tags module identity).",
+    "DESIGN.md §5 C16",
+)
+claim(
+    "C18",
+    "candidate names computed from the AST of the regenerated modules; for each candidate used as property/parameter name the regenerated client is checked by CrossHair (z3) against the same document-derived oracles as a neutral name",
+    "For every identifier the generated model/endpoint modules themselves use (locals, arguments, attributes, methods, imports, keywords; ~90 per scope, recomputed from the current templates) the client generated with that name behaves like the neutral one for all symbolic instances/arguments, except the recorded capturing names (known findings C18-F1/F2); any new capturing name is reported.",
+    "One document shape per scope (model with int/str/list-of-model properties; operation with path/query/header/cookie parameters and a JSON body); the differential is by common oracle, not by comparing two programs.",
+    "DESIGN.md §5 C18",
+)
+claim(
+    "C19",
+    "bounded symbolic strings (QF_BV, z3) for every path component the generator derives; CrossHair (z3) on the existing-directory guard of Project.build",
+    "For every title/tag/operation/schema name within K over Sigma (which contains '/', '\\', '.', NUL) the derived directory, package, tag, module and file names contain no separator, dot or NUL and are non-empty (unsat without any assumed-away class); without overwrite an existing directory makes build() return one error before any write step, with overwrite all steps run.",
+    "Histories (sequences of generate commands over two documents, overwrite on/off, user files, 2-4 metadata flavours) are replayed concretely against scratch directories (finite choice set); OS faults outside the claim; the naming expressions of Project.__init__ are isolated as functions whose text is checked against the real source.",
+    "DESIGN.md §5 C19",
+)
+
 ALL = [f"C{i:02d}" for i in range(1, 21)]
 
 
